@@ -45,6 +45,7 @@ func (c *Collector) Add(rule, key string, v Verdict, where, detail string, props
 	// keys appear as one whitespace-free token in known_findings.txt
 	key = strings.ReplaceAll(strings.ReplaceAll(key, ", ", ","), " ", "_")
 	id := rule + "/" + key
+	props = widen(id, props)
 	if i, ok := c.seen[id]; ok {
 		o := &c.Obls[i]
 		if rank(v) > rank(o.Verdict) {
@@ -103,5 +104,63 @@ func (c *Collector) ForProp(p string) []Obligation {
 		}
 	}
 	sort.Slice(out, func(i, j int) bool { return out[i].ID() < out[j].ID() })
+	return out
+}
+
+
+// AlsoServes: constructs that were first filed under the property their rule was written for and
+// that independently confirmed changes (the seeds of DESIGN.md §10, each with a failing
+// demonstration of the property named here) showed to be necessary for other properties too. The
+// obligation carries those properties as well, so that the check of every property a construct
+// is necessary for reports it.
+var AlsoServes = []struct {
+	Prefix string
+	Props  []string
+}{
+	{"ERRS/", []string{"C02", "C03", "C08", "C10"}},
+	{"SCRAP/", []string{"C03", "C08", "C09"}},
+	{"ITEMFLAGS/", []string{"C03", "C04"}},
+	{"ATOMIC/check-then-act:cache.", []string{"C03", "C07"}},
+	{"KEYS/K2:vectorstore.", []string{"C04"}},
+	{"BITPACK/", []string{"C04"}},
+	{"COVERAGE/every-index-once:", []string{"C04"}},
+	{"LOCKORDER/cycle:{cache.ItemCache", []string{"C04"}},
+	{"TXSTATE/", []string{"C04", "C08", "C09", "C10"}},
+	{"RANK/text:order", []string{"C06"}},
+	{"CUTONCE/path-cut-once:shard", []string{"C06"}},
+	{"ROEFFECT/", []string{"C07", "C11"}},
+	{"FLUSH/counters-present:", []string{"C07", "C09"}},
+	{"TXSHADOW/owner-state-in-transaction:shard", []string{"C09"}},
+	{"WITHCB/", []string{"C08"}},
+	{"BORROW/retained:", []string{"C09"}},
+	{"DIRTY/", []string{"C09"}},
+	{"DOCFLOW/insert-after-existence-test:", []string{"C09"}},
+	{"PURITY/", []string{"C14", "C17"}},
+	{"ROUTE/retry-gives-attempt-back", []string{"C15"}},
+	{"LIFECYCLE/remove-after-unregister", []string{"C16"}},
+	{"LOSSYCMP/integers-through-float:utils", []string{"C17"}},
+	{"MERGE/sort-keys", []string{"C17"}},
+	{"QUOTA/points:", []string{"C18"}},
+	{"FOLD/presence:", []string{"C18"}},
+	{"FOLD/anchor:fold-sites", []string{"C18"}},
+	{"POOLESCAPE/returned-after-put:shard/pointstore", []string{"C19"}},
+	{"OPTABLE/point:", []string{"C19"}},
+}
+
+func widen(id string, props []string) []string {
+	out := props
+	for _, a := range AlsoServes {
+		if !strings.HasPrefix(id, a.Prefix) {
+			continue
+		}
+		for _, p := range a.Props {
+			if !has(out, p) {
+				if len(out) == len(props) {
+					out = append([]string(nil), props...)
+				}
+				out = append(out, p)
+			}
+		}
+	}
 	return out
 }
